@@ -289,6 +289,12 @@ def reset_sut(np_seed=0):
     import dask_array.io._from_array as fa
 
     gc.enable()
+    try:
+        from . import gen as _g
+
+        _g.IDENTITY[0] = "fresh"
+    except Exception:  # noqa: BLE001
+        pass
     m._LOWER_CACHE.clear()
     for _, reg in all_singleton_registries():
         reg.clear()
